@@ -62,8 +62,8 @@ TIMEOUT = {'quick': 600, 'thorough': 1800}
 
 
 def FLOORS(tier):
-    # ~40 % of what a complete quick run (1400 programs) observes; thorough = 16 shards x 1700 programs
-    k = 1 if tier == 'quick' else 15
+    # ~40 % of what a complete quick run (1400 programs) observes; thorough = 16 shards x 5600 programs = 64 x quick
+    k = 1 if tier == 'quick' else 50
     return {
         'evaluations': 1000 * k,
         'jobs_submitted': 2000 * k,
@@ -1219,7 +1219,7 @@ def run(ctx):
     import gc
 
     gc.disable()  # Backend.__del__ runs the event loop: let the cyclic GC run between cases only
-    phases = [('main', ctx.pick(1200, 1500)), ('tokens', ctx.pick(100, 100)), ('digits', ctx.pick(100, 100))]  # ~10 ms per program
+    phases = [('main', ctx.pick(1200, 5000)), ('tokens', ctx.pick(100, 300)), ('digits', ctx.pick(100, 300))]  # ~8 ms per program
     for phase, n in phases:
         for i, rng in ctx.cases(n, phase):
             case = gen_case(rng, phase)
